@@ -2340,6 +2340,16 @@ impl Zeroconf {
     ) -> Vec<u8> {
         let is_ipv4 = sock.domain() == Domain::IPV4;
 
+        // Withdraw the names that were announced: they differ from the registered
+        // ones after a conflict.
+        let (fullname, hostname) = match self.dns_registry_map.get(&intf.index) {
+            Some(registry) => (
+                registry.resolve_name(info.get_fullname()),
+                registry.resolve_name(info.get_hostname()),
+            ),
+            None => (info.get_fullname(), info.get_hostname()),
+        };
+
         let mut out = DnsOutgoing::new(FLAGS_QR_RESPONSE | FLAGS_AA);
         out.add_answer_at_time(
             DnsPointer::new(
@@ -2347,7 +2357,7 @@ impl Zeroconf {
                 RRType::PTR,
                 CLASS_IN,
                 0,
-                info.get_fullname().to_string(),
+                fullname.to_string(),
             ),
             0,
         );
@@ -2360,7 +2370,7 @@ impl Zeroconf {
                     RRType::PTR,
                     CLASS_IN,
                     0,
-                    info.get_fullname().to_string(),
+                    fullname.to_string(),
                 ),
                 0,
             );
@@ -2368,19 +2378,19 @@ impl Zeroconf {
 
         out.add_answer_at_time(
             DnsSrv::new(
-                info.get_fullname(),
+                fullname,
                 CLASS_IN | CLASS_CACHE_FLUSH,
                 0,
                 info.get_priority(),
                 info.get_weight(),
                 info.get_port(),
-                info.get_hostname().to_string(),
+                hostname.to_string(),
             ),
             0,
         );
         out.add_answer_at_time(
             DnsTxt::new(
-                info.get_fullname(),
+                fullname,
                 CLASS_IN | CLASS_CACHE_FLUSH,
                 0,
                 info.generate_txt(),
@@ -2401,7 +2411,7 @@ impl Zeroconf {
         for address in if_addrs {
             out.add_answer_at_time(
                 DnsAddress::new(
-                    info.get_hostname(),
+                    hostname,
                     ip_address_rr_type(&address),
                     CLASS_IN | CLASS_CACHE_FLUSH,
                     0,
